@@ -3,6 +3,39 @@ HOOK_COMMITS = ['d17a021']
 NOT_YET = {}
 
 REGISTRY = {
+    'C01': {
+        'rule': 'real HydraulicControlUnit (J1939Unit trigger/tick/try_recv on a real NetDriverContext): all histories of length <=3 (quick) / <=4 (thorough) '
+                'over a 14-letter alphabet {tick, 5 motion shapes, 4 non-motion commands, unit status frame, unit address-claim/software-id frame, '
+                'config/actuator frame addressed to the unit, foreign frame} with values from the seeded PRNG, plus random histories of length 5..205; '
+                'frames emitted by every event compared with the extracted model; C01 predicate (every tick re-sends exactly the latest motion, stop-all => only the lock frame) evaluated on the real frames; '
+                'non-trivial = a movable motion command followed later by a tick; distinct by case text',
+        'exhaustive': {'quick': False, 'thorough': False},
+        'level_text': 'Theorems C01, C01_reassert (for ANY finite history the tick output is the encoding of the latest motion command, stop-all before any), '
+                      'C01_inert (non-motion commands and every received frame leave the re-asserted command unchanged) are proved by induction over histories of '
+                      'arbitrary length about the Gallina model of the HCU driver; the model is tied to the real driver by differential execution of enumerated and random histories.',
+        'level_note': 'partial on schedules: every handler of the HCU driver makes exactly one access to the shared context (a mutex-protected critical section), so each interleaving '
+                      'of the receive/tick/command tasks is equivalent to a sequential history ordered by those accesses; the theorem is over sequential histories and the real code is driven at handler granularity. '
+                      'Trusted: Coq kernel, extraction, drv.ml, harness.',
+        'technique': 'Rocq proof (invariant by induction over event histories) + model/implementation correspondence on enumerated and random histories',
+        'explanation': 'C01 + C01_reassert + C01_inert; C02 predicate reused as the meaning of "exactly that motion command"',
+        'assumptions': ['received frames are 8 bytes (normalised by the network layer, C06/C17)',
+                        'interleavings below handler granularity are argued from the single-access shape of the handlers, not executed'],
+        'trusted': ['modelled, not verified: Rust semantics of HydraulicControlUnit::{trigger,tick,try_recv}; HashMap collect (last duplicate wins); crate j1939 IdBuilder/FrameBuilder'],
+    },
+    'C02': {
+        'rule': 'real HydraulicControlUnit::trigger and ::tick (must agree): every (da,sa) pair x 5 motion shapes (thorough; 1/4 of the pairs in quick), every actuator x every i16 value as single change and every straight-drive value (thorough; every 8th + boundaries in quick), '
+                'all 1957 ordered subsets of the six actuators, random change lists of length 0..32 with duplicates and extreme values (20k quick / 200k thorough); frames compared with the extracted model and checked by the C02 predicate; '
+                'non-trivial = straight drive or non-empty change set; distinct by case text',
+        'exhaustive': {'quick': False, 'thorough': False},
+        'level_text': 'Theorem C02 proves, for ALL unit/source addresses in 0..255, all motion variants, change lists of ANY length/order/duplication and all i16 values, that the emitted frames are exactly the '
+                      'specified ones (exact 29-bit identifier, priority 3, PGN, destination, source; slot bytes little-endian two\'s complement; other slots FF FF; bank present iff used; decode round trip except -1); '
+                      'the model is tied to the code by exhaustive execution over all (da,sa) pairs and all i16 values per slot, plus structured random lists.',
+        'level_note': 'trusted: Coq kernel, extraction, drv.ml, harness; `|`/`<<` on disjoint identifier fields are modelled arithmetically (tied by the exhaustive (da,sa) sweep); the model covers the six defined actuators (ids 0..5).',
+        'technique': 'Rocq proof (codec laws, last-duplicate-wins lemma by induction, lia with div/mod) + exhaustive/structured correspondence',
+        'explanation': 'C02 + C02_last_duplicate_wins + C02_config_frames + C02_slot_roundtrip + C02_addressing',
+        'assumptions': ['change sets use the six defined actuators (the wire decoder rejects others)'],
+        'trusted': ['modelled, not verified: HashMap<u8,i16> collection order independence; j1939::IdBuilder::build; Frame::new / FrameBuilder::copy_from_slice'],
+    },
     'C07': {
         'level_text': 'Theorem C07 (and C07_envelope, C07_never_panics) proves the envelope for ALL idle<=max, ALL integer speeds and all 48 '
                       'state/age combinations about the Gallina model of Governor::next_state; the model is tied to the code by exhaustive '
